@@ -452,6 +452,65 @@ def extract_data_subscript(repo):
     return ctext, (first, last), {'loops_with_contract': nw + nf, 'push_back': n2}
 
 
+LEN_SIZE_RX = r'strTo\s*<\s*size_t\s*>\s*\(\s*_variables\s*\[\s*node->value\s*\]\s*(?:\.compound)?\s*\[\s*"size"\s*\]\s*\.atom\s*\)'
+LEN_RX = r'\bvalue\s*\.\s*array\s*\.\s*size\s*\(\s*\)'
+
+
+def extract_array_len_guard(repo):
+    """setVariable, case PML_NAME (a whole array is assigned to a declared array, e.g. by a <data> initialiser),
+    sliced to the guard on the LENGTH of the assigned array:
+         if (<condition over strTo<size_t>(..["size"].atom) and value.array.size()>) ERROR_EXECUTION_THROW(..)
+    -> size / len parameters (any size_t).  Must be found exactly once, inside the `if (..hasKey("size"))` block.
+    Dropped (listed): every other statement of the arm (Data map accesses, the guards that do not mention the length)."""
+    path = os.path.join(repo, SRC)
+    first, last, sigtext, body = rules.find_function(path, SIG_SET)
+    m = re.search(r'\bcase\s+PML_NAME\s*:\s*\{', body)
+    if not m:
+        raise rules.ExtractionError('setVariable: case PML_NAME arm not found')
+    ob = m.end() - 1
+    cb = rules.match_close(body, ob, '{', '}')
+    line = first + body.count('\n', 0, ob)
+    found, dropped = [], []
+
+    def is_throw(st):
+        if st[0] == 'block':
+            return len(st[1]) == 1 and is_throw(st[1][0])
+        return st[0] == 'simple' and st[1].startswith('ERROR_EXECUTION_THROW')
+
+    def walk(stmts, under_size):
+        for st in stmts:
+            if st[0] == 'block':
+                walk(st[1], under_size)
+            elif st[0] == 'if':
+                cond = st[1]
+                if re.search(LEN_RX, cond):
+                    if not under_size:
+                        raise rules.ExtractionError('setVariable/PML_NAME: length guard outside the hasKey("size") block')
+                    if st[3] is not None or not is_throw(st[2][0]):
+                        raise rules.ExtractionError('setVariable/PML_NAME: length guard not of the form if (..) ERROR_EXECUTION_THROW(..)')
+                    c = re.sub(LEN_RX, 'len', re.sub(LEN_SIZE_RX, 'size', cond))
+                    chk = rules.strip_literals(c)
+                    if not re.match(r'^[\s\w<>=!&|()+\-]*$', chk) or re.search(r'\b(?!len\b|size\b|\d+\b)[A-Za-z_]\w*', chk):
+                        raise rules.ExtractionError('setVariable/PML_NAME: length guard outside the rules: %s' % ' '.join(cond.split()))
+                    found.append(' '.join(c.split()))
+                    continue
+                dropped.append({'what': 'guard that does not mention the length of the assigned array', 'text': ' '.join(cond.split())})
+                if not is_throw(st[2][0]):
+                    walk(st[2], under_size or bool(re.search(r'hasKey\s*\(\s*"size"\s*\)', cond)))
+                if st[3]:
+                    walk(st[3], under_size)
+            else:
+                if re.search(LEN_RX, st[1]):
+                    raise rules.ExtractionError('setVariable/PML_NAME: statement on the array length outside the rules: %s' % st[1])
+                dropped.append({'what': 'statement not on the array length', 'text': st[1]})
+    walk(parse_stmts(body[ob + 1:cb]), False)
+    if len(found) != 1:
+        raise rules.ExtractionError('setVariable/PML_NAME: expected exactly one guard on value.array.size(), found %d' % len(found))
+    ctext = ('/* %s:%d  setVariable, case PML_NAME, sliced to the guard on the length of an assigned array */\n'
+             'static int arrlen_setVariable(size_t size, size_t len) {\n  if (%s) { verif_throw(); return 0; }\n  verif_used = 1;\n  return 0;\n}\n' % (SRC, line, found[0]))
+    return ctext, line, dropped
+
+
 def extract(repo):
     path = os.path.join(repo, SRC)
     first, last, sig, body = rules.find_function(path, SIG)
@@ -491,6 +550,8 @@ def extract(repo):
         idx_code += ctext
         res['index_guards'].append({'function': fname, 'line': line, 'dropped': dropped})
     res['dataToBool_lines'] = d2b_lines
+    al_code, al_line, al_dropped = extract_array_len_guard(repo)
+    res['array_len_guard'] = {'function': 'setVariable', 'line': al_line, 'dropped': al_dropped}
     res['c'] = ('/* GENERATED on every run by engines/extract/pml_extract.py from %s */\n'
                 '#include <stdbool.h>\n#include <stddef.h>\n#include <limits.h>\n'
                 'enum { %s };\n'
@@ -513,7 +574,7 @@ def extract(repo):
                 '  __CPROVER_requires(index <= 2147483647)\n'
                 '  __CPROVER_assigns(verif_n, verif_deref)\n'
                 '  __CPROVER_ensures(verif_n > index && verif_n >= __CPROVER_old(verif_n))\n;\n'
-                % (SRC, ', '.join('%s = %d' % (e, 300 + i) for i, e in enumerate(enum)))) + d2b + '\n' + idx_code + '\n' + res['data_subscript'] + '\n' + '\n'.join(code)
+                % (SRC, ', '.join('%s = %d' % (e, 300 + i) for i, e in enumerate(enum)))) + d2b + '\n' + idx_code + '\n' + al_code + '\n' + res['data_subscript'] + '\n' + '\n'.join(code)
     return res
 
 
